@@ -24,7 +24,7 @@ func init() {
 	comp["network between actors and mempools"] = "stub: simulated transport (drop, duplicate, delay, reorder, partition) in front of the real CheckTx"
 	assume := []string{"outer tx signatures are not verified; the signer is the declared signer field", "single block proposer per chain", "the executor relays faithfully (C08's premise); the proposer only commits to withdrawals the L2 recorded"}
 
-	c08 := &tcProfile{Prop: "C08", Reimport: 1, Others: 6, Steps: [2]int{60, 220}, Faults: true, Challenge: 2, Hooks: 20, BadRcpt: 12, BigAmts: true}
+	c08 := &tcProfile{Prop: "C08", DepFault: 4, Reimport: 1, Others: 6, Steps: [2]int{60, 220}, Faults: true, Challenge: 2, Hooks: 20, BadRcpt: 12, BigAmts: true}
 	core.Register(&core.Scenario{ID: "C08", Level: "exploration", Run: runTwoChain(c08), Components: comp, Assumptions: assume,
 		Rule:      "the full bridge: real L1 and L2 nodes, users on both sides, 1-3 racing executors, proposer, challenger forcing re-proposal, claimers, third-party sends, other rollups' bridges on the same L1 (created before and after this one, with their own deposits, proposals, deletions, claims and role changes), over a simulated network with loss / duplication / delay / reordering / partitions and crash-restart of either node, client traffic on discarded branches, aborted optimistic executions, restarts of either chain from its exported genesis, then a fault-free drain; oracle: both lock-step models plus the peg equation escrow = L2 supply + deposits in flight + unpaid withdrawals (from parsed events and public queries) after every block of either chain, and after the drain every claim paid exactly once, escrow = supply, combined holdings unchanged; non-trivial = >=2 deposits, >=1 withdrawal and >=1 successful claim",
 		QuickRuns: 1500, QuickSecs: 75, ThoroughRuns: 20000, ThoroughSecs: 800,
